@@ -133,8 +133,8 @@ def replay(behaviour, report=None):
 def run(tier, report):
     core.import_repo()
     rng = core.rng(15)
-    plans = {"quick": [("quick_a", None, 6000), ("quick_b", None, 6000), ("sheets", None, None), ("sim", 150, None)],
-             "thorough": [("quick_a", None, None), ("quick_b", None, None), ("sheets", None, None), ("deep", None, 80000), ("deep_b", None, 80000),
+    plans = {"quick": [("quick_a", None, 6000), ("quick_b", None, 6000), ("structure", None, 6000), ("sheets", None, None), ("sim", 150, None)],
+             "thorough": [("quick_a", None, None), ("quick_b", None, None), ("structure", None, None), ("sheets", None, None), ("deep", None, 80000), ("deep_b", None, 80000),
                           ("sim", 5000, None)]}
     folder = core.workdir("c15")
     try:
@@ -167,7 +167,9 @@ def run(tier, report):
                     if report.violation("c15", vec, {"rows": vec["table"]}, None, problem, signature=signature):
                         shown += 1
         for pinned, what in (("pinned_text", "D4a only the text in front of the first child element is read"),
-                             ("pinned_rows", "D4b table:number-rows-repeated is ignored")):
+                             ("pinned_rows", "D4b table:number-rows-repeated is ignored"),
+                             ("pinned_groups", "D35 rows inside table:table-header-rows / table:table-row-group are skipped"),
+                             ("pinned_covered", "D36 covered cells of merged ranges are skipped")):
             result = core.tlc("MCOds", "Ods_%s.cfg" % pinned, expect_violation=True, coverage=False)
             if result.violated != "ReadsTheLogicalTable":
                 raise core.MachineryError("expected-counterexample configuration Ods_%s found none" % pinned)
